@@ -2,6 +2,7 @@
 import ast
 import z3
 
+from .kinds import safe_forall
 from .kinds import (V, VNone, NONE, VTuple, VList, VDict, VFunc, VClass, VModule, VExc, Kind,
                     INT, BOOL, STR, REAL, Ref, Seq, SetK, Map, Opt, PyKind, RefSort, NULL,
                     const, concrete, fresh, fresh_name)
@@ -629,8 +630,8 @@ def _symbolic_comp(models, eng, e, st, frame, how):
             return V(K, C)
         C = z3.Const(fresh_name("setcomp"), K.sort())
         y = z3.Const(fresh_name("y"), es)
-        st.assume(z3.ForAll([y], z3.Select(C, y) == z3.Exists(bound, z3.And(guard, elt.term == y)), patterns=[z3.Select(C, y)]))
-        st.assume(z3.ForAll(bound, z3.Implies(guard, z3.Select(C, elt.term))))
+        st.assume(safe_forall([y], z3.Select(C, y) == z3.Exists(bound, z3.And(guard, elt.term == y)), patterns=[z3.Select(C, y)]))
+        st.assume(safe_forall(bound, z3.Implies(guard, z3.Select(C, elt.term))))
         return V(K, C)
     # list: order-preserving map when there is a single unfiltered sequence generator
     single = len(gens) == 1 and not gens[0].ifs and bound[0].sort() == z3.IntSort() and not isinstance(
@@ -645,24 +646,24 @@ def _symbolic_comp(models, eng, e, st, frame, how):
         src_elem = sym_sequence(eng, it, st)[1](i)
         pats = [K.at(r.term, i)]
         body1 = z3.Implies(z3.And(i >= 0, i < n), z3.And(K.at(r.term, i) == elt.term, K.contains(r.term, elt.term)))
-        st.assume(z3.ForAll([i], body1, patterns=[K.at(r.term, i)]))
+        st.assume(safe_forall([i], body1, patterns=[K.at(r.term, i)]))
         if isinstance(src_elem, V):
             try:
-                st.assume(z3.ForAll([i], body1, patterns=[src_elem.term]))
+                st.assume(safe_forall([i], body1, patterns=[src_elem.term]))
             except z3.Z3Exception:
                 pass
         src = z3.Function(fresh_name("mapsrc"), es, z3.IntSort())
         y = z3.Const(fresh_name("y"), es)
         elt_at_src = z3.substitute(elt.term, (i, src(y)))
-        st.assume(z3.ForAll([y], z3.Implies(K.contains(r.term, y), z3.And(src(y) >= 0, src(y) < n, elt_at_src == y)),
+        st.assume(safe_forall([y], z3.Implies(K.contains(r.term, y), z3.And(src(y) >= 0, src(y) < n, elt_at_src == y)),
                             patterns=[K.contains(r.term, y)]))
         return r
     # filtered / nested: characterise membership only (order and multiplicity abstracted)
     y = z3.Const(fresh_name("y"), es)
     n = K.len(r.term)
-    st.assume(z3.ForAll([y], K.contains(r.term, y) == z3.Exists(bound, z3.And(guard, elt.term == y)),
+    st.assume(safe_forall([y], K.contains(r.term, y) == z3.Exists(bound, z3.And(guard, elt.term == y)),
                         patterns=[K.contains(r.term, y)]))
-    st.assume(z3.ForAll(bound, z3.Implies(guard, K.contains(r.term, elt.term))))
+    st.assume(safe_forall(bound, z3.Implies(guard, K.contains(r.term, elt.term))))
     return r
 
 
@@ -685,7 +686,7 @@ def quantify_gen(models, eng, g, st, exists):
         st.frames.pop()
     if exists:
         return V(BOOL, z3.Exists(bound, z3.And(guard, elt.term)))
-    return V(BOOL, z3.ForAll(bound, z3.Implies(guard, elt.term)))
+    return V(BOOL, safe_forall(bound, z3.Implies(guard, elt.term)))
 
 
 def next_of_gen(models, eng, g, default, st, node):
@@ -732,7 +733,7 @@ def next_of_gen(models, eng, g, default, st, node):
             st1.assume(z3.And(k.term >= 0, k.term < n, ck))
             j2 = z3.Const(fresh_name("j"), z3.IntSort())
             cj2, _ = cond_at(j2, st1)
-            st1.assume(z3.ForAll([j2], z3.Implies(z3.And(j2 >= 0, j2 < k.term), z3.Not(cj2))))
+            st1.assume(safe_forall([j2], z3.Implies(z3.And(j2 >= 0, j2 < k.term), z3.Not(cj2))))
             yield st1, eltk
         elif default is not None:
             yield st1, default
